@@ -1,3 +1,263 @@
 package main
 
-func c17Certs(c *Ctx) {}
+// C17 (b) upstream certificate matrix and (c) client-certificate matrix, through the real
+// binary and its configuration path. Both matrices are enumerated completely.
+
+import (
+	"crypto/tls"
+	"fmt"
+	"os"
+	"path/filepath"
+	"strings"
+	"time"
+
+	"github.com/IrineSistiana/mosproxy/verif/internal/dnsclient"
+	"github.com/IrineSistiana/mosproxy/verif/internal/fakeup"
+	"github.com/IrineSistiana/mosproxy/verif/internal/pki"
+	"github.com/IrineSistiana/mosproxy/verif/internal/proxyproc"
+	"github.com/miekg/dns"
+)
+
+func c17Certs(c *Ctx) {
+	c17UpstreamCerts(c)
+	c17ClientCerts(c)
+}
+
+func c17UpstreamCerts(c *Ctx) {
+	dir := filepath.Join(c.Work, "certs")
+	os.MkdirAll(dir, 0755)
+	ca1, _ := pki.NewCA("verif-ca1")
+	ca2, _ := pki.NewCA("verif-ca2")
+	ca1Path := filepath.Join(dir, "ca1.pem")
+	ca1.WriteFile(ca1Path)
+	kinds := []struct{ scheme, transport string }{{"tls", "tls"}, {"tls+pipeline", "tls"}, {"https", "https"}, {"h3", "h3"}, {"quic", "quic"}}
+	certs := []string{"valid", "wrong-name", "unknown-ca", "expired", "self-signed"}
+	options := []string{"ca", "system-roots", "skip-verify"}
+	mkLeaf := func(kind string) *pki.Leaf {
+		var l *pki.Leaf
+		switch kind {
+		case "valid":
+			l, _ = ca1.Leaf(pki.LeafOpt{Names: []string{"up.test"}})
+		case "wrong-name":
+			l, _ = ca1.Leaf(pki.LeafOpt{Names: []string{"other.test"}})
+		case "unknown-ca":
+			l, _ = ca2.Leaf(pki.LeafOpt{Names: []string{"up.test"}})
+		case "expired":
+			l, _ = ca1.Leaf(pki.LeafOpt{Names: []string{"up.test"}, Expired: true})
+		case "self-signed":
+			l, _ = ca1.Leaf(pki.LeafOpt{Names: []string{"up.test"}, SelfSigned: true})
+		}
+		return l
+	}
+	type cell struct {
+		tag, scheme, cert, option string
+		srv                       *fakeup.Server
+		port                      string
+		want                      bool
+	}
+	var cells []*cell
+	var servers []*fakeup.Server
+	defer func() {
+		for _, s := range servers {
+			s.Close()
+		}
+	}()
+	var y strings.Builder
+	y.WriteString("upstreams:\n")
+	var sets, rules strings.Builder
+	sets.WriteString("domain_sets:\n")
+	rules.WriteString("rules:\n")
+	n := 0
+	for _, k := range kinds {
+		for _, ct := range certs {
+			leaf := mkLeaf(ct)
+			s := fakeup.NewServer(fmt.Sprintf("srv-%s-%s", k.scheme, ct))
+			cfg := &tls.Config{Certificates: []tls.Certificate{leaf.TLS}}
+			var err error
+			switch k.transport {
+			case "tls":
+				err = s.ListenTLS("127.0.0.1:0", cfg)
+			case "https":
+				err = s.ListenHTTPS("127.0.0.1:0", cfg)
+			case "h3":
+				err = s.ListenH3("127.0.0.1:0", cfg)
+			case "quic":
+				err = s.ListenQUIC("127.0.0.1:0", cfg)
+			}
+			if err != nil {
+				c.Inconclusive("fake TLS server: " + err.Error())
+				return
+			}
+			servers = append(servers, s)
+			addr := s.Addr[k.transport]
+			_, port, _ := strings.Cut(addr, ":")
+			for _, op := range options {
+				tag := fmt.Sprintf("c%d", n)
+				n++
+				cl := &cell{tag: tag, scheme: k.scheme, cert: ct, option: op, srv: s, port: port}
+				cl.want = op == "skip-verify" || (op == "ca" && ct == "valid")
+				cells = append(cells, cl)
+				path := ""
+				if k.transport == "https" || k.transport == "h3" {
+					path = "/dns-query"
+				}
+				fmt.Fprintf(&y, "  - tag: %s\n    addr: \"%s://up.test:%s%s\"\n    dial_addr: \"%s\"\n", tag, k.scheme, port, path, addr)
+				switch op {
+				case "ca":
+					fmt.Fprintf(&y, "    tls:\n      ca: \"%s\"\n", ca1Path)
+				case "skip-verify":
+					y.WriteString("    tls:\n      insecure_skip_verify: true\n")
+				}
+				fp := filepath.Join(dir, "set_"+tag+".txt")
+				os.WriteFile(fp, []byte("domain:"+tag+".test\n"), 0644)
+				fmt.Fprintf(&sets, "  - tag: set_%s\n    files: [\"%s\"]\n", tag, fp)
+				fmt.Fprintf(&rules, "  - domain: set_%s\n    forward: %s\n", tag, tag)
+			}
+		}
+	}
+	var p *proxyproc.Proxy
+	var listen string
+	for attempt := 0; ; attempt++ {
+		ports, err := proxyproc.FreePorts("127.0.0.1", 1)
+		if err != nil {
+			c.Inconclusive("ports")
+			return
+		}
+		listen = fmt.Sprintf("127.0.0.1:%d", ports[0])
+		cfgText := y.String() + sets.String() + rules.String() + fmt.Sprintf("servers:\n  - protocol: tcp\n    listen: \"%s\"\n", listen)
+		p, err = proxyproc.Start(proxyproc.Opts{Bin: proxyBin(), Dir: filepath.Join(dir, fmt.Sprintf("proxy%d", attempt)), YAML: cfgText})
+		if err == nil {
+			break
+		}
+		clash := p != nil && p.LogContains("address already in use")
+		if p != nil {
+			p.Stop()
+		}
+		if clash && attempt < 4 {
+			continue
+		}
+		c.Violation("certs:proxy-start-failed", "the proxy did not start with the certificate matrix configuration: "+err.Error(), map[string]any{"err": err.Error()})
+		return
+	}
+	defer func() {
+		alive := p.Alive()
+		res := p.Stop()
+		if !alive {
+			c.Violation("proxy-died", "the proxy died in the certificate matrix: "+res.Panic, map[string]any{"panic": res.Panic})
+		}
+	}()
+	reps := c.N(1, 4)
+	parallelFor(len(cells)*reps, 12, nil, func(i int) {
+		cl := cells[i%len(cells)]
+		rep := i / len(cells)
+		name := fmt.Sprintf("ok-cert%dr%d.%s.test.", i, rep, cl.tag)
+		sc, err := dnsclient.DialStream("", listen, nil)
+		if err != nil {
+			c.Inconclusive("dial proxy: " + err.Error())
+			return
+		}
+		defer sc.Close()
+		sc.SendFrame(mkQuery(uint16(i), name, dns.TypeA, dns.ClassINET, false))
+		c.Ev.Eval(1)
+		cs := map[string]any{"scheme": cl.scheme, "server_certificate": cl.cert, "tls_option": cl.option, "expected_success": cl.want}
+		cellName := cl.scheme + "/" + cl.cert + "/" + cl.option
+		if !sc.WaitFrames(1, 10*time.Second) {
+			c.Inconclusive("no response for cell " + cellName)
+			return
+		}
+		m := new(dns.Msg)
+		if m.Unpack(sc.Frames()[0].Data) != nil {
+			c.Inconclusive("undecodable response")
+			return
+		}
+		got := m.Rcode == dns.RcodeSuccess
+		if got {
+			if _, err := CheckKeyed(dns.Question{Name: name, Qtype: dns.TypeA, Qclass: dns.ClassINET}, cl.srv.Tag, m); err != nil {
+				c.Violation("certs:wrong-answer", cellName+": "+err.Error(), cs)
+				return
+			}
+		}
+		switch {
+		case got && !cl.want:
+			c.Violation("certs:accepted-bad-certificate:"+cl.cert+":"+cl.option, fmt.Sprintf("%s upstream with a %s server certificate and tls option %q: the exchange succeeded although the certificate must be rejected", cl.scheme, cl.cert, cl.option), cs)
+		case !got && cl.want:
+			c.Violation("certs:rejected-good-certificate:"+cl.cert+":"+cl.option, fmt.Sprintf("%s upstream with a %s server certificate and tls option %q: the exchange failed (rcode %d) although it must succeed", cl.scheme, cl.cert, cl.option, m.Rcode), cs)
+		default:
+			// SNI / Host seen by the server for successful exchanges
+			if got {
+				for _, ql := range cl.srv.Log() {
+					if !strings.EqualFold(ql.Name, name) {
+						continue
+					}
+					if ql.SNI != "" && ql.SNI != "up.test" {
+						c.Violation("certs:sni", fmt.Sprintf("%s: server name %q presented, the URL host is up.test", cellName, ql.SNI), cs)
+					}
+					if ql.Host != "" && ql.Host != "up.test:"+cl.port {
+						c.Violation("certs:http-host", fmt.Sprintf("%s: Host %q, the URL host is up.test:%s", cellName, ql.Host, cl.port), cs)
+					}
+				}
+			}
+			c.Ev.Distinct("certs", cl.scheme, cl.cert, cl.option)
+			c.Ev.Count(fmt.Sprintf("certs_success=%v", got), 1)
+		}
+	})
+	c.Ev.Set("certificate_matrix_cells", len(cells))
+	c.Ev.Sample(map[string]any{"part": "certs", "cell": "quic/expired/ca", "expected": "SERVFAIL", "cells": len(cells)})
+}
+
+func c17ClientCerts(c *Ctx) {
+	b, err := NewBed(c, "mtls", BedOpts{Upstreams: []string{"pipe"}, Listeners: []string{"tls", "https", "quic", "tcp"}, VerifyClientCert: true})
+	if err != nil {
+		c.startFailure(err, "c17-mtls")
+		return
+	}
+	defer func() {
+		alive := b.Proxy.Alive()
+		res := b.Stop()
+		if !alive {
+			c.Violation("proxy-died", "the proxy died in the client certificate matrix: "+res.Panic, map[string]any{"panic": res.Panic})
+		}
+	}()
+	ca2, _ := pki.NewCA("other-ca")
+	mk := func(kind string) *tls.Config {
+		cfg := b.ProxyTLS.Clone()
+		var l *pki.Leaf
+		switch kind {
+		case "none":
+			return cfg
+		case "other-ca":
+			l, _ = ca2.Leaf(pki.LeafOpt{Names: []string{"client"}, Client: true})
+		case "self-signed":
+			l, _ = b.CA.Leaf(pki.LeafOpt{Names: []string{"client"}, Client: true, SelfSigned: true})
+		case "expired":
+			l, _ = b.CA.Leaf(pki.LeafOpt{Names: []string{"client"}, Client: true, Expired: true})
+		case "valid":
+			l, _ = b.CA.Leaf(pki.LeafOpt{Names: []string{"client"}, Client: true})
+		}
+		cfg.Certificates = []tls.Certificate{l.TLS}
+		return cfg
+	}
+	i := 0
+	for rep := 0; rep < c.N(1, 4); rep++ {
+		for _, listener := range []string{"tls", "https", "quic"} {
+			for _, kind := range []string{"none", "other-ca", "self-signed", "expired", "valid"} {
+				i++
+				name := fmt.Sprintf("ok-mtls%d.pipe.test.", i)
+				x := b.Exchange(listener, mkQuery(uint16(i), name, dns.TypeA, dns.ClassINET, false), xOpts{TLS: mk(kind), Timeout: 5 * time.Second})
+				c.Ev.Eval(1)
+				served := x.Err == nil && len(x.Resp) >= 12 && (x.Status == 0 || x.Status == 200)
+				cs := map[string]any{"listener": listener, "client_certificate": kind, "served": served, "err": fmt.Sprint(x.Err)}
+				switch {
+				case served && kind != "valid":
+					c.Violation("mtls:served-without-valid-client-cert:"+kind, fmt.Sprintf("%s listener with verify_client_cert: a client presenting %q received a DNS response", listener, kind), cs)
+				case !served && kind == "valid":
+					c.Violation("mtls:rejected-valid-client-cert", fmt.Sprintf("%s listener with verify_client_cert: a client with a valid certificate was not served: %v", listener, x.Err), cs)
+				default:
+					c.Ev.Distinct("mtls", listener, kind)
+					c.Ev.Count(fmt.Sprintf("mtls_served=%v", served), 1)
+				}
+			}
+		}
+	}
+	c.Ev.Sample(map[string]any{"part": "mtls", "cell": "https/expired", "expected": "handshake refused, no DNS response"})
+}
